@@ -233,6 +233,75 @@ static int pv_skip(parse_buffer * const b) { if (can_access_at_index(b, 0) && (b
 static int bad_TAB13_scan(const char *p) { int n = 0; while (p[0] != '\0') { if ((p[0] == '\\') && (p[1] == '\"')) { p++; } p++; n++; } return n; }
 static int good_scan_pairs(const char *p) { int n = 0; while (p[0] != '\0') { if ((p[0] == '\\') && (p[1] != '\0')) { p++; } p++; n++; } return n; }
 
+/* NUM5: digits accumulated in a double */
+static size_t bad_NUM5_seventeen(const parse_buffer * const b, double * const number)
+{
+    const unsigned char *text = buffer_at_offset(b);
+    double value = 0.0;
+    size_t first = 0;
+    size_t i = 0;
+    for (i = first; can_access_at_index(b, i) && (text[i] >= '0') && (text[i] <= '9'); i++)
+    {
+        if ((i - first) >= 17) { return 0; }
+        value = (value * 10.0) + (double)(text[i] - '0');
+    }
+    *number = value;
+    return i;
+}
+static size_t good_fifteen(const parse_buffer * const b, double * const number)
+{
+    const unsigned char *text = buffer_at_offset(b);
+    double value = 0.0;
+    size_t i = 0;
+    for (i = 0; (i < 15) && can_access_at_index(b, i) && (text[i] >= '0') && (text[i] <= '9'); i++)
+    {
+        value = (value * 10.0) + (double)(text[i] - '0');
+    }
+    *number = value;
+    return i;
+}
+size_t use_num5(const parse_buffer *b, double *n) { return bad_NUM5_seventeen(b, n) + good_fifteen(b, n); }
+
+/* ENT1: the entry point gives up in front of the value parser only when the value could not be parsed either */
+static int fx_value(void *item, parse_buffer * const b) { return (item != NULL) && can_access_at_index(b, 0) && (buffer_at_offset(b)[0] == '['); }
+void *bad_ENT1_blank_test(const char *value, size_t n)
+{
+    parse_buffer buffer = { 0, 0, 0, 0, { 0, 0, 0 } };
+    if (value == NULL || n == 0) { return NULL; }
+    buffer.content = (const unsigned char*)value; buffer.length = n; buffer.offset = 0;
+    /* "stopped on the last byte": true for a one character document in a buffer of exact length as well */
+    if ((buffer_skip_whitespace(&buffer) == NULL) || ((buffer.offset + 1) >= buffer.length)) { return NULL; }
+    if (!fx_value((void*)value, &buffer)) { return NULL; }
+    return (void*)value;
+}
+void *good_blank_test(const char *value, size_t n)
+{
+    parse_buffer buffer = { 0, 0, 0, 0, { 0, 0, 0 } };
+    if (value == NULL || n == 0) { return NULL; }
+    buffer.content = (const unsigned char*)value; buffer.length = n; buffer.offset = 0;
+    if ((buffer_skip_whitespace(&buffer) == NULL) || (((buffer.offset + 1) >= buffer.length) && (buffer_at_offset(&buffer)[0] <= 32))) { return NULL; }
+    if (!fx_value((void*)value, &buffer)) { return NULL; }
+    return (void*)value;
+}
+void *bad_ENT1_refuses_digits(const char *value, size_t n)
+{
+    parse_buffer buffer = { 0, 0, 0, 0, { 0, 0, 0 } };
+    if (value == NULL || n == 0) { return NULL; }
+    buffer.content = (const unsigned char*)value; buffer.length = n; buffer.offset = 0;
+    if ((buffer_skip_whitespace(&buffer) == NULL) || (buffer_at_offset(&buffer)[0] < 'A')) { return NULL; }
+    if (!fx_value((void*)value, &buffer)) { return NULL; }
+    return (void*)value;
+}
+void *good_nothing_left(const char *value, size_t n)
+{
+    parse_buffer buffer = { 0, 0, 0, 0, { 0, 0, 0 } };
+    if (value == NULL || n == 0) { return NULL; }
+    buffer.content = (const unsigned char*)value; buffer.length = n; buffer.offset = 0;
+    if (cannot_access_at_index(&buffer, 0)) { return NULL; }
+    if (!fx_value((void*)value, &buffer)) { return NULL; }
+    return (void*)value;
+}
+
 /* C10 structure: resets only one field, publishes from two different values, no terminator check */
 void *cJSON_ParseWithLengthOpts(const char *value, size_t buffer_length, const char **return_parse_end, int require_null_terminated)
 {
